@@ -29,8 +29,10 @@ class ExprGen:
             return '(%s %s %s)' % (self.num(d - 1), rng.choice(BINOPS), self.num(d - 1))
         if r < .6:
             # powers only with small operands (an unbounded ** can take forever to evaluate)
-            base = rng.choice(['2', '3', '(-2)', '(-(3))', '1.5', '(1 + 1)', 'G2', '(2 ** 2)', '(-1.5)', '(+2)', '(~1)'])
-            exp = rng.choice(['2', '3', '(-1)', '(1 + 1)', '(2 ** 2)', '0.5', '(-(2))'])
+            # (no fractional exponents: a constant-folded complex result crashes the compiler, C43-type defect)
+            base = rng.choice(['2', '3', '(-2)', '(-(3))', '1.5', '(1 + 1)', 'G2', '(2 ** 2)', '(-1.5)', '(+2)', '(~1)', '(-G2)', '(-G4)',
+                               '(~G2)', '(+G2)', '(-G1[0])', '(G2 ** 2)', '(G2 + 1)'])
+            exp = rng.choice(['2', '3', '(-1)', '(1 + 1)', '(2 ** 2)', '(-(2))', 'G2', '(-G2)', '(G2 - 5)'])
             return '(%s ** %s)' % (base, exp)
         if r < .72:
             return '(%s(%s))' % (rng.choice(['-', '+', '-']), self.num(d - 1))
